@@ -142,7 +142,7 @@ impl Property for C12 {
         "C12"
     }
     fn rule(&self) -> String {
-        "three generated case kinds. Records: a synthesised accounting-record file of any of the 15 layouts (plain or in a container) printed at 65536 and at 2..4 block sizes in 64..5000 that are no multiple of the record size, all outputs identical. E2E: generated text log (plain or in a generated gz/bz2/xz/lz4/tar container), optional window, optional -u -d prefix, run at 65536 and at 4 sizes from {64,65,66,100,127,128,129,255,256,1000,4095..4097,8095..8097,0xFFFF,0x10001,0xFFFFFF,generated}: every stdout must equal the 65536 stdout and the model output. Lines (in-process LineReader, block sizes 1..len+2): sequential find_line results must tile the file and equal split-on-newline, random-access find_line(fo) on fresh and warmed readers must return the line containing fo; contents over {\\n,a,1,\\r,0x80} exhaustively enumerated up to length 7 in the extra phase. non-trivial: E2E = file larger than one block at some size and a message/line starts, ends or straddles a block boundary (+-1) there; Lines = >=2 lines and content longer than the block; distinct = hash(content, sizes).".into()
+        "three generated case kinds. Records: a synthesised accounting-record file of any of the 15 layouts (plain or in a container) printed at 65536 and at 2..4 block sizes in 64..5000 that are no multiple of the record size, all outputs identical. E2E: generated text log (one in eight ends in a bare timestamp without newline whose last byte alone lies in the next block at an added block size; plain or in a generated gz/bz2/xz/lz4/tar container), optional window, optional -u -d prefix, run at 65536 and at 4 sizes from {64,65,66,100,127,128,129,255,256,1000,4095..4097,8095..8097,0xFFFF,0x10001,0xFFFFFF,generated}: every stdout must equal the 65536 stdout and the model output. Lines (in-process LineReader, block sizes 1..len+2): sequential find_line results must tile the file and equal split-on-newline, random-access find_line(fo) on fresh and warmed readers must return the line containing fo; contents over {\\n,a,1,\\r,0x80} exhaustively enumerated up to length 7 in the extra phase. non-trivial: E2E = file larger than one block at some size and a message/line starts, ends or straddles a block boundary (+-1) there; Lines = >=2 lines and content longer than the block; distinct = hash(content, sizes).".into()
     }
     fn assumptions(&self) -> Vec<String> {
         vec!["files must pass the block-zero acceptance heuristic at every size used (finding F6 excluded by construction; probed as known finding)".into()]
@@ -167,7 +167,27 @@ impl Property for C12 {
                 let p = TextParams { min_msgs: 0, max_msgs, steer_bs: steer, max_mult: 3, accept_bs: all, ..TextParams::default() };
                 (text_log(p), Just(bss), Just(codec), win_spec_or_none(), Just(prepend))
             })
-            .prop_map(|(log, bss, codec, win, prepend)| Case::E2E { log, codec, bss, win, prepend });
+            .prop_flat_map(|(log, bss, codec, win, prepend)| (Just(log), Just(bss), Just(codec), Just(win), Just(prepend), prop::option::weighted(0.12, any::<u16>())))
+            .prop_map(|(mut log, mut bss, codec, win, prepend, tail)| {
+                // tail steering: the file ends in a bare timestamp without newline and one block size puts exactly its
+                // last byte into the next block (file size = k * bs + 1)
+                // (only with two full messages before it: a file that is nothing but a bare timestamp is outside the
+                // generated domain, the block-zero analysis need not accept it)
+                let enough = log.msgs.len() >= 3;
+                if let (Some(pick), Some(last), true) = (tail, log.msgs.last_mut(), enough) {
+                    last.body = B(vec![]);
+                    last.cont.clear();
+                    log.final_nl = false;
+                    let n = log.render().bytes.len() as u64;
+                    if n > 65 {
+                        let divs: Vec<u64> = (64..=(n - 1)).filter(|d| (n - 1) % d == 0).collect();
+                        if !divs.is_empty() {
+                            bss.push(divs[(pick as usize * divs.len()) >> 16]);
+                        }
+                    }
+                }
+                Case::E2E { log, codec, bss, win, prepend }
+            });
         let alphabet = prop_oneof![4 => Just(b'\n'), 4 => Just(b'a'), 2 => Just(b'1'), 1 => Just(b'\r'), 1 => Just(0x80u8), 1 => Just(0u8)];
         let lines = (prop::collection::vec(alphabet, 0..200), prop::collection::vec(any::<u16>(), 0..12), any::<u16>()).prop_map(|(c, probes, b)| {
             let bs = 1 + ((b as u64 * (c.len() as u64 + 2)) >> 16);
